@@ -17,6 +17,7 @@ func init() {
 	verifRegister("verifC09Srflx", verifC09Srflx)
 	verifRegister("verifC09RelayCandidates", verifC09RelayCandidates)
 	verifRegister("verifC09RelayBody", verifC09RelayBody)
+	verifRegister("verifC09HostUDPMux", verifC09HostUDPMux)
 }
 
 // verifSTUNConn: a UDP socket that answers one STUN Binding request.
@@ -298,6 +299,107 @@ func verifC09RelayBody() {
 	} else {
 		verifReach("no-socket")
 		verifAssert(cl.closed == 0, "nothing-to-release")
+	}
+	verifReach("done")
+}
+
+// verifCountingMux: a UDPMux whose handles are plain fake sockets with a ghost
+// close counter: every GetConn is a reference taken, every Close one released.
+type verifCountingMux struct {
+	addrs   []net.Addr
+	handles []*verifPacketConn
+	getErr  int // GetConn number getErr (1-based) fails; 0: never
+	removed int
+}
+
+func (m *verifCountingMux) Close() error { return nil }
+func (m *verifCountingMux) GetConn(_ string, addr net.Addr) (net.PacketConn, error) {
+	if m.getErr != 0 && len(m.handles)+1 == m.getErr {
+		m.getErr = -1
+		return nil, errVerifBusy
+	}
+	h := &verifPacketConn{local: addr}
+	m.handles = append(m.handles, h)
+	return h, nil
+}
+func (m *verifCountingMux) RemoveConnByUfrag(string)       { m.removed++ }
+func (m *verifCountingMux) GetListenAddresses() []net.Addr { return m.addrs }
+
+// Host candidates over a UDP mux: every mux reference the gatherer takes is
+// adopted by exactly one candidate or released at once — duplicates (two listen
+// addresses that yield the same host candidate: mDNS gather mode, or a rewrite
+// rule mapping both to one external address), a refused candidate (gathering
+// cancelled) and a failing GetConn included; removing the candidates releases
+// each adopted reference exactly once.
+func verifC09HostUDPMux() {
+	w := verifNewWorld(true, false, 0, 0)
+	a := w.a
+	a.loop = verifLoop()
+	a.gatheringState = GatheringStateGathering
+	a.mDNSMode = MulticastDNSModeQueryOnly
+	a.mDNSName = "verifhost.local"
+	samePort := verifChoice(2) == 1
+	p2 := 5001
+	if samePort {
+		p2 = 5000
+	}
+	mux := &verifCountingMux{addrs: []net.Addr{
+		&net.UDPAddr{IP: net.IPv4(10, 0, 0, 1).To4(), Port: 5000},
+		&net.UDPAddr{IP: net.IPv4(10, 0, 0, 2).To4(), Port: p2},
+		&net.UDPAddr{IP: net.IPv4(10, 0, 0, 3).To4(), Port: 5002},
+	}}
+	a.udpMux = mux
+	if verifChoice(2) == 1 {
+		// every address is published under the one mDNS name: listen addresses
+		// with the same port yield the same host candidate
+		a.mDNSMode = MulticastDNSModeQueryAndGather
+		verifReach("mdns-gather")
+	}
+	ctx, cancel := context.WithCancel(context.Background())
+	defer cancel()
+	fault := verifChoice(3)
+	switch fault {
+	case 1:
+		cancel() // the cycle was superseded: every candidate is refused
+		verifReach("cancelled")
+	case 2:
+		mux.getErr = 2
+		verifReach("getconn-fails")
+	}
+	err := a.gatherCandidatesLocalUDPMux(ctx)
+	verifAssert((err != nil) == (mux.getErr == -1), "error-iff-the-mux-refused")
+	adopted := 0
+	for _, h := range mux.handles {
+		owners := 0
+		for _, l := range a.localCandidates {
+			for _, cand := range l {
+				if verifBaseOf(cand).conn == net.PacketConn(h) {
+					owners++
+				}
+			}
+		}
+		verifAssert(owners <= 1, "a-mux-reference-belongs-to-at-most-one-candidate")
+		if owners == 1 {
+			adopted++
+			verifAssert(h.closed == 0, "an-adopted-mux-reference-stays-open")
+		} else {
+			verifAssert(h.closed == 1, "a-mux-reference-that-no-candidate-adopted-is-released-at-once-exactly-once")
+		}
+	}
+	if fault == 0 {
+		want := 3
+		if samePort && a.mDNSMode == MulticastDNSModeQueryAndGather {
+			want = 2
+			verifReach("duplicate-skipped")
+		}
+		verifAssert(adopted == want, "one-candidate-per-distinct-host-config")
+	}
+	if fault == 1 {
+		verifAssert(adopted == 0, "a-superseded-cycle-adds-nothing")
+	}
+	a.deleteAllCandidates()
+	for _, h := range mux.handles {
+		verifAssert(h.closed == 1, "after-removal-every-mux-reference-was-released-exactly-once")
 	}
 	verifReach("done")
 }
